@@ -3,7 +3,7 @@
 theorem layer : coq/theories/props/C06.v over the model coq/theories/heap/{Heap,HeapVm}.v
                 (exact refcounts = occurrences in roots for the choke points and every handler,
                 no use after free, reclamation sound/complete, bytes stable, transfer copies;
-                F9 exhibited as `_refuted` witnesses for the code as found, proved for the repair)
+                F9 / F46 exhibited as `_refuted` witnesses for the code before the repairs, proved for the repaired code)
 correspondence: generated Quiver programs run on REAL `Executor<TestEffect>`s driven directly by
                 harness/src/bin/qv_heap.rs (which plays worker + environment exactly as worker.rs /
                 environment.rs do) at quantum 1; after EVERY operation the extracted model's whole
@@ -20,9 +20,9 @@ from vplib import sexpr
 
 MANIFEST = dict(
     category="proof",
-    text="Coq theorems over a hand-written model of the executor's refcounted binary heap (all 24 instruction handlers, the select machine, notify_message/result/spawn, spawn_process, frame auto-pop and completion, replace_locals / release_orphan_locals): refcounts equal the exact number of occurrences in all roots after every choke point and every handler, between time slices (refcount_exact; partial: see note), a freed slot is referenced by no root (no_use_after_free), process_pending_free frees exactly queued slots with count 0 and leaves no counted-then-dropped slot unreclaimed (reclaim_sound / reclaim_complete), bytes of a slot reachable before and after a step are unchanged including in-place materialize and slot reuse (bytes_stable), inject(extract v) denotes the same bytes on the receiving heap (transfer_copies). The F9 leak is exhibited as refuted witnesses for the code as found and the repaired handlers are proved. Validated, not proved: that the model is the code (differential execution of the extracted model against real Executors after every operation) and the oracle on the real code at all quanta.",
+    text="Coq theorems over a hand-written model of the executor's refcounted binary heap (all 24 instruction handlers, the select machine, notify_message/result/spawn, spawn_process, frame auto-pop and completion, replace_locals / release_orphan_locals): refcounts equal the exact number of occurrences in all roots after every choke point and every handler, between time slices (refcount_exact; partial: see note), a freed slot is referenced by no root (no_use_after_free), process_pending_free frees exactly queued slots with count 0 and leaves no counted-then-dropped slot unreclaimed (reclaim_sound / reclaim_complete), bytes of a slot reachable before and after a step are unchanged including in-place materialize and slot reuse (bytes_stable), inject(extract v) denotes the same bytes on the receiving heap (transfer_copies). The F9 and F46 leaks (fixed in /repo: b6882e1, 9ff9f6e) are exhibited as refuted witnesses for the code before the repairs; the theorems are about the code as committed. Validated, not proved: that the model is the code (differential execution of the extracted model against real Executors after every operation) and the oracle on the real code at all quanta.",
     design_ref="§5 C06",
-    note="Known findings routed: F9, F46 (spawn_process orphan slots), F45h (Ok result overwritten by a propagated error). partial: the exact-count invariant is proved for every choke point, heap primitive and executor-level operation named in props/C06.v; handlers proved as compositions are listed there (the select machine with filters is covered by correspondence + oracle, its theorem is stated for the repaired code). Debug-build semantics (debug_assert = panic). Scheduling state (queue / parked sets) is not modelled: which process runs is an input. Known: F9 (awaiting / receiving overwritten without release).",
+    note="Findings: F9 and F46 fixed (their reproducers are must-pass regression probes in corpus/c06_*.txt), F45h known (Ok result overwritten by a propagated error). partial: the exact-count invariant is proved for every choke point, heap primitive and executor-level operation named in props/C06.v; handlers proved as compositions are listed there (the select machine with filters is covered by correspondence + oracle, its theorem is stated for the repaired code). Debug-build semantics (debug_assert = panic). Scheduling state (queue / parked sets) is not modelled: which process runs is an input.",
     technique="Coq proof (multiset counting invariant, delta form per handler) + extraction + differential execution against the real executor after every operation + real-code oracle (check_refcounts, use-after-free, shadow bytes) under generated schedules and quanta down to 1",
 )
 
@@ -275,11 +275,13 @@ def classify(status, detail, stats):
     ledger = stats.get("ledger") == "1"
     if status == "panic":
         if "refcount invariant violated" in detail:
-            if ledger or int(stats.get("f9", "0")) > 0:
+            f9, ro = int(stats.get("f9", "0")), int(stats.get("resover", "0"))
+            sf9, sro = int(stats.get("sus-f9", "0")), int(stats.get("sus-resover", "0"))
+            if f9 > 0:
                 return ("F9", "debug check_refcounts panic after an awaiting/receiving overwrite without release")
-            if int(stats.get("sus-resover", "0")) > 0 and int(stats.get("sus-f9", "0")) == 0:
+            if ro > 0 or (sro > 0 and sf9 == 0):
                 return ("resover", "Ok result holding a binary overwritten by a propagated error without release")
-            if int(stats.get("sus-f9", "0")) > 0:
+            if sf9 > 0:
                 return ("F9", "debug check_refcounts panic in the step that overwrote awaiting/receiving")
         return ("violation", "real code panicked: " + detail[:300])
     if status == "oracle":
@@ -345,8 +347,8 @@ def run(ctx):
                                    "source": s, "expected": e, "got": o, "origin": fn})
 
     # ---------------- generated programs
-    nprog = ctx.n(130, 2500)
-    nsched_oracle = ctx.n(4, 24)
+    nprog = ctx.n(150, 2500)
+    nsched_oracle = ctx.n(5, 24)
     programs = []
     for i in range(nprog):
         g = Gen(rng)
@@ -487,11 +489,15 @@ def run(ctx):
         if i in model:
             m = model[i]
             if m.startswith("(agree"):
-                mm = re.match(r"\(agree (\d+) (\w+)\)", m)
+                mm = re.match(r"\(agree (\d+) ([\w-]+)\)", m)
                 ops_compared += int(mm.group(1))
-                if mm.group(2) != "unfixed":
+                if mm.group(2) != "current":
+                    # the real code behaves like the model of a PRE-REPAIR variant: a fix was undone
                     agree_fixed += 1
                     modes_seen[mm.group(2)] = modes_seen.get(mm.group(2), 0) + 1
+                    ctx.violation({"kind": "correspondence-broken", "correspondence": "HeapVm model (fix_F9 + fix_F46 applied) vs Executor",
+                                   "what": "the real executor agrees only with the model of the code before a repair: " + mm.group(2),
+                                   "case": line}, no_input=(cl is None))
                 else:
                     agree += 1
             elif m.startswith("(empty)"):
@@ -527,7 +533,7 @@ def run(ctx):
         "programs_leaving_orphan_slots_after_spawn": len(progs_orphans), "orphan_slots_total": tot["orphans"],
         "traces_validated_against_impl": agree + agree_fixed,
         "model_operations_compared": ops_compared,
-        "model_agrees_as_found": agree, "model_agrees_only_with_a_repair_applied": agree_fixed, "repaired_model_modes": modes_seen,
+        "model_agrees_with_code_as_committed": agree, "model_agrees_only_with_a_pre_repair_variant": agree_fixed, "pre_repair_modes_seen": modes_seen,
         "disagreements_checked": disagree + bad,
         "f9_runs": f9_cases, "f45h_result_overwrite_runs": resover_cases, "f46_orphan_runs": f46_cases, "f28_probes": len(f28), "f28_bad": f28_bad,
         "histogram_quantum": {str(k): v for k, v in sorted(hist_q.items(), key=lambda x: str(x[0]))},
